@@ -9,6 +9,15 @@ TECH = "bounded symbolic execution of the real odml functions (CrossHair core, z
 
 CLAIMED = {
     # id: (design_ref, what is decided, trusted base / assumptions)
+    "C01": ("DESIGN.md 5/C01",
+            "For every symbolic document within the bounds the in-memory pipeline XMLWriter.save_element -> serialise+parse -> XMLReader (strict and lenient) "
+            "returns an equal document up to trimming (tree, order, ids, attributes, dtypes, cardinalities, typed values) without reader warnings, or the writer "
+            "raises because some text is not XML-compatible; the written tree uses only the odML 1.1 vocabulary and carries the format version; the CSV value "
+            "codec inverts itself on 1-3 symbolic values; an element tree written by an independent reference writer of the vocabulary (symbolic child order "
+            "and text padding) loads to the document it describes. Path-tree exhaustion under z3.",
+            "lxml builder/serialiser/parser behind vlib/stubs/lxmlstub.py and the C module _csv behind vlib/stubs/csvmodel.py (both compared with the real "
+            "libraries in the preflight; counterexamples replay through real lxml/csv, odml.save/odml.load, plain and local_style); open findings "
+            "F-C01-uncertainty-text, F-C01-blank-name, F-C02-tuple-delimiters."),
     "C02": ("DESIGN.md 5/C02",
             "For every symbolic document within the bounds (text attributes and string values over all of Unicode, length <= 1-2; unbounded ints; pools of "
             "floats/dates/times; 2-tuples; every cardinality shape; every forest over 1 Document + 2 Sections + 2 Properties) ODMLWriter.to_string / DictWriter "
@@ -42,6 +51,13 @@ CLAIMED = {
             "identity-based snapshot of every object reachable from the universe (parents, ordered child lists, names, ids, types, attributes, values, "
             "cardinalities, link/include/merge state) equals the snapshot before the call and nothing new is attached.",
             "Same universes and bounds as C03/C05; the quick tier repeats half of the value opcodes (C05 asserts the same frame condition on every refusal)."),
+    "C07": ("DESIGN.md 5/C07",
+            "odml.save on an in-memory file system with one symbolic fault bit per serialiser: for a two-level document with a symbolic Section type/name and a "
+            "planted defect (shared id between any two objects, duplicate sibling names, warning-only conditions), every back end (XML plain/local_style, JSON, "
+            "YAML, RDF incl. an unsupported format), target absent or present: a document the C08 reference calls invalid raises ParserException and no file is "
+            "touched; whenever save raises nothing was created or truncated; a warnings-only document is written to the expected path and the warnings reported.",
+            "Serialisers are stubs (fixed text or raise); the file system is vlib/stubs/fakefs.py; replay uses real files and real faults; partial writes after a "
+            "successful open are outside the claim."),
     "C08": ("DESIGN.md 5/C08",
             "For symbolic documents, stand-alone Sections and Properties (names, types, dependencies, dependency values symbolic; duplicate names, empty "
             "names, shared ids, dtype-inconsistent values and every cardinality/count combination injected) the multiset of (object, issue id, rank) "
@@ -56,6 +72,33 @@ CLAIMED = {
             "Decided by exhausting the path tree of the real functions under z3; holds = no path within the bounds violates.",
             "CrossHair's int/str/tuple models; bool members excluded; ints bounded only where str()/int() render or parse them; "
             "the file layer (lxml/json/yaml text) is covered in C01/C02, not here."),
+    "C11": ("DESIGN.md 5/C11",
+            "On every API-built shape over 1 Document + 2 Sections + 2 Properties (symbolic names, int/string/2-tuple values) and every node and flag "
+            "combination: clone() is detached, equal in content, shares no mutable object (Sections, Properties, child lists, value lists, inner tuple lists) "
+            "with the original, has all ids fresh or all identical, and no children with children=False; export_leaf() is exactly the root-to-object chain with "
+            "all Properties and original ids and shares nothing; one edit on either side never changes the other; lists returned by / passed to values are "
+            "disconnected from the Property.",
+            "Independence under edit sequences of any length is concluded from heap disjointness plus one explicit edit step; value text from small pools."),
+    "C13": ("DESIGN.md 5/C13",
+            "dest.merge(src) against a reference merge on plain descriptions: symbolic child names/types (structure), Property pairs over dtype x value pools x "
+            "one attribute pair (unit, uncertainty incl. 0, definition, reference, value_origin), Section definition/reference at two levels, and a conflict of "
+            "each kind planted at any Property pair / child Section of a two-level tree with symbolic source order: a conflicting pair raises ValueError and "
+            "leaves both trees unchanged; otherwise the result equals the reference (complete, conservative, src unchanged, copies are new objects).",
+            "Text attributes from a pool (the comparison code's split()/lower() does not exhaust on free symbolic text); text whose conversion equals a stored "
+            "value is assumed away (the statement leaves it open)."),
+    "C14": ("DESIGN.md 5/C14",
+            "Every ordered forest over 1 Document + 3-4 Sections with names from a prefix pool: get_path() lookups from the Document and every Section return the "
+            "very object; a.get_section_by_path(a.get_relative_path(b)) is b for every ordered pair incl. self and ancestors; itersections/iterproperties/"
+            "itervalues equal a reference breadth-first enumeration for every start, max_depth and filter; find/find_related are sound and complete for every "
+            "key/type/flag combination.",
+            "Names are concrete pool members (posixpath is C code): the solver's work is the case split over shapes, names, pairs and arguments, exhaustive "
+            "within the bound but not a symbolic generalisation over names."),
+    "C19": ("DESIGN.md 5/C19",
+            "On the symbolic documents of C08: the identity snapshot of all objects is equal before and after Validation(obj) / validate() / report(), two runs "
+            "report the same multiset of issues; for every history of 2 (quick) / 3 (thorough) actions among default validation, custom validation with a "
+            "registered rule (reset=True, with and without validate=False), object creation, cardinality change, save in every back end, dictionary load: "
+            "the class-level rule table is unchanged and the custom issue appears only in the custom instance.",
+            "In-process only: 'another process' (hash seeds, set order across interpreters) is outside the claim; message text compared in replay only."),
 }
 
 NOT_APPLICABLE = {
